@@ -263,7 +263,7 @@ def run(case: dict, ctx) -> dict:
     emptied = rng.choice([0, 0, 0, 1, 2])
     # one object table with more entries than fit a 4 KiB page (its length is its entry count): many of them unallocated
     big_ot = {"first_table_pages": 3, "pad_objects": rng.randrange(230, 520)} if rng.random() < 0.2 else {}
-    raw, meta = w.build(rng, tree, ntables=ntables, seqs=(s1, s2), stale_tables=stale, free_prob=rng.choice([0, 0.15, 0.4]), emptied_tables=emptied, backward_chain=rng.random() < 0.4,
+    raw, meta = w.build(rng, tree, ntables=ntables, seqs=(s1, s2), stale_tables=stale, free_prob=rng.choice([0, 0.15, 0.4]), emptied_tables=emptied, backward_chain=rng.random() < 0.4, released_object_table=rng.random() < 0.25,
                         table_order=rng.choice(["shuffle", "shuffle", "seq"]), extra_object_tables=rng.choice([0, 0, 1, 3]),
                         trailer_mode=rng.choice(["12", "12", "0", "rand"]), stale_same_layout=rng.random() < 0.7,
                         replay_entries=rng.choice([0, 0, 3]), inactive_slot=rng.choice(["valid", "valid", "zero", "garbage"]), **big_ot)
